@@ -11,6 +11,9 @@
   holds up to a tolerance: partial, watched by the search).  `Better a b` = "a ≤ b, NaN worst".
 -/
 import DfolsVerif.Proofs.BookAccB
+import DfolsVerif.Proofs.Radius
+import DfolsVerif.Gen.KernelFns
+import DfolsVerif.Gen.ModelDecisions
 
 namespace Dfols
 namespace C04
@@ -72,6 +75,57 @@ theorem C04_hist_complete {evs : List Ev} {s : St} (h : accept false evs = .ok s
 theorem C04_restart_monotone (best : Option Cand) (c : Cand) :
     Better (merge best c).obj c.obj ∧ ∀ b, best = some b → Better (merge best c).obj b.obj :=
   ⟨merge_right best c, merge_left best c⟩
+
+/-- **the ratio gate (L0, exact arithmetic)**: the solver opens the incumbent's row for replacement
+    (`skip_kopt=False`) only when `calculate_ratio` returned without exit and `ratio > 0`; with a defined
+    division that implies the trial point is strictly better than the incumbent.  (`calcRatio`,
+    `mayReplaceKopt` are compared bit for bit with every `calculate_ratio` call of the traced runs.) -/
+theorem C04_ratio_gate (pred actual : ℝ) (nproj : Nat)
+    (hex : (Radius.calcRatio realRadOps pred actual nproj).2 = none) (hp : pred ≠ 0)
+    (hr : Radius.mayReplaceKopt realRadOps (Radius.calcRatio realRadOps pred actual nproj).1 = true) : 0 < actual :=
+  Radius.mayReplaceKopt_imp_decrease pred actual nproj hex hp hr
+
+/-- layer G (translated code): the decision tail of `Controller.calculate_ratio`, the test in front of
+    `skip_kopt=False` and the list of call sites passing `skip_kopt=False`, as generated from /repo's AST on
+    this run, are the kernels `C04_ratio_gate` speaks about -/
+theorem gen_calcRatio_eq {F : Type} (o : RadOps F) (pred actual : F) (nproj : Nat) :
+    Gen.calcRatio o pred actual nproj = Radius.calcRatio o pred actual nproj := rfl
+
+theorem gen_mayReplaceKopt_eq {F : Type} (o : RadOps F) (ratio : F) :
+    Gen.mayReplaceKopt o ratio = Radius.mayReplaceKopt o ratio := rfl
+
+theorem gen_skipKopt_guards :
+    Gen.skipKoptFalseGuards = [("control.choose_point_to_replace", ["ratio > 0.0"])] := by decide
+
+/-- the gate, stated on the translated code -/
+theorem C04_gen_ratio_gate (pred actual : ℝ) (nproj : Nat)
+    (hex : (Gen.calcRatio realRadOps pred actual nproj).2 = none) (hp : pred ≠ 0)
+    (hr : Gen.mayReplaceKopt realRadOps (Gen.calcRatio realRadOps pred actual nproj).1 = true) : 0 < actual := by
+  rw [gen_calcRatio_eq] at hex hr
+  rw [gen_mayReplaceKopt_eq] at hr
+  exact C04_ratio_gate pred actual nproj hex hp hr
+
+/-- layer G (translated code): the four tests of model.py that decide which point `Model` keeps
+    (`change_point`, `add_new_point`, `save_point`, `get_final_results`), as generated from /repo's AST on this
+    run, are the decisions of the L1 state machine that `BookAcc` replays -/
+theorem gen_model_decisions (allow : Bool) (v opt : Val) (saved : Option Val) :
+    Gen.changePointUpdatesKopt allow v opt = (allow && MState.improves v opt) ∧
+    Gen.addPointUpdatesKopt v opt = MState.improves v opt ∧
+    Gen.savePointAccepts saved v = MState.saveAccepts v saved ∧
+    Gen.finalPrefersCurrent saved opt = MState.finalPrefersOpt opt saved := by
+  refine ⟨rfl, rfl, ?_, ?_⟩ <;> cases saved <;> rfl
+
+/-- layer G (translated code): the test of `solve()` that decides whether a hard-restarted run's result
+    replaces the best so far is the one `merge` (hence `C04_restart_monotone`) uses -/
+theorem gen_restart_merge (b c : Cand) :
+    merge (some b) c = if Gen.restartMergeTakesNew c.obj b.obj then c else b := rfl
+
+/-- a (slightly) negative predicted reduction never passes the gate: it is an exit, whatever its size -/
+theorem C04_negative_pred_exits {F : Type} (o : RadOps F) (pred actual : F) (nproj : Nat) (h : o.lt pred (o.lit 0 0) = true) :
+    (Radius.calcRatio o pred actual nproj).2 ≠ none := by
+  intro hn
+  have := (Radius.calcRatio_exit_iff o pred actual nproj).mp hn
+  rw [h] at this; exact Bool.noConfusion this
 
 /-! ### non-vacuity: the C03 example trace is accepted with `averaged = false`; its result 40 is the best of 50, 40, 45, 60 -/
 
